@@ -640,7 +640,7 @@ func genResp(g *hx.Gen, n int) {
 	for i := 0; i < n; i++ {
 		der, serials, iss := buildResponse(g, r)
 		emitResp(g, r, der, serials, iss)
-		for k := g.Count(3, 3); k > 0; k-- {
+		for k := 3; k > 0; k-- {
 			g.Stat("resp.mutant")
 			emitResp(g, r, mutateDER(r, der), serials, iss)
 		}
